@@ -1,6 +1,18 @@
 //! C02: well-formed PDFs from any producer load to their content.  An independent reference writer renders a small
 //! abstract document under every combination of a set of syntactic choices (enumerated, not sampled); the real loader
 //! must return exactly the abstract document.
+//!
+//! Two further dimensions are enumerated on top of the style product:
+//!  * where the integer of an indirect /Length lives (`len_home`): a file-body object after the stream, a file-body object
+//!    before the stream, or a compressed object inside the object stream (ISO 32000-1 7.3.8.2 allows an indirect Length,
+//!    7.5.7 only forbids compressing the Length of an object stream itself) -- every one of them crossed with the whole
+//!    style product;
+//!  * how many digits a real number is spelled with (`nums` >= 100, the "reals" family): a PDF real is a decimal of any
+//!    length (7.3.3), the object it defines is the f32 nearest to the number written.  For abstract reals at the edges of
+//!    every binade the writer spells each one as a decimal just inside either edge of its f32 rounding interval, at every
+//!    number of decimal places, and as its exact binary value.  The oracle is exact decimal arithmetic on dyadic rationals
+//!    (no floating-point parser takes part): a spelling that lies strictly between the two midpoints that bound the
+//!    rounding interval of v defines v and nothing else.
 #![allow(dead_code)]
 use crate::common::*;
 use crate::gen::*;
@@ -15,11 +27,12 @@ pub struct Style {
     pub ws: usize,         // 0 single space, 1 extra mixed white-space (incl. NUL, FF, tab), 2 comments between tokens
     pub strs: usize,       // 0 literal plain escapes, 1 octal escapes + line continuation, 2 hex with white-space / odd digit count
     pub names: usize,      // 0 plain, 1 #XX for ordinary letters
-    pub nums: usize,       // 0 plain, 1 "+7" "-.5" "1." "007"
+    pub nums: usize,       // 0 plain, 1 "+7" "-.5" "1." "007"; reals only (integers stay plain): 100+z exact binary expansion with z more zeros,
+                           // 1000+d largest decimal with d places below the upper edge of the real's f32 rounding interval, 2000+d smallest decimal with d places above its lower edge
     pub order: usize,      // 0 ascending, 1 descending objects in the body
     pub xref: usize,       // 0 one table section, 1 many sections, 2 xref stream W[1 2 1], 3 W[1 3 0]+Index, 4 W[2 4 2] Flate, 5 W[1 2 1] Flate+Predictor 12, 6 W [0 2 0]
     pub objstm: bool,      // non-stream objects 2.. go into an object stream (needs an xref stream)
-    pub indirect_len: bool,
+    pub indirect_len: bool, // render(): the stream's Length is an indirect object written after the stream (render_ext takes the full `len_home` dimension instead)
     pub junk: bool,
 }
 
@@ -50,12 +63,130 @@ fn wnum_i(v: i64, s: &Style, out: &mut Vec<u8>) {
     if s.nums == 1 && v >= 0 { out.extend_from_slice(format!("+{:03}", v).as_bytes()) } else { out.extend_from_slice(v.to_string().as_bytes()) }
 }
 fn wnum_r(v: f32, s: &Style, out: &mut Vec<u8>) {
+    if s.nums >= 100 {
+        if let Some((text, _)) = real_spelling(v, s.nums) { out.extend_from_slice(text.as_bytes()); return; }
+    }
     let t = format!("{}", v);
     if s.nums == 1 {
         if v.fract() == 0.0 { out.extend_from_slice(format!("{}.", v as i64).as_bytes()) }
         else if v.abs() < 1.0 { out.extend_from_slice(t.replacen("0.", ".", 1).as_bytes()) }
         else { out.extend_from_slice(t.as_bytes()) }
     } else if v.fract() == 0.0 { out.extend_from_slice(format!("{:.1}", v).as_bytes()) } else { out.extend_from_slice(t.as_bytes()) }
+}
+
+// ---- exact decimal arithmetic on dyadic rationals: the oracle for the spellings of real numbers ----
+
+/// a non-negative decimal number: `digits` (values 0..=9, most significant first) with `places` of them after the point;
+/// digits.len() > places always
+#[derive(Clone, Debug)]
+pub struct Dec { digits: Vec<u8>, places: usize }
+
+impl Dec {
+    fn mul_small(&mut self, k: u32) {
+        let mut carry = 0u32;
+        for d in self.digits.iter_mut().rev() { let x = *d as u32 * k + carry; *d = (x % 10) as u8; carry = x / 10; }
+        while carry > 0 { self.digits.insert(0, (carry % 10) as u8); carry /= 10; }
+    }
+    /// exactly n * 2^e
+    pub fn dyadic(n: u64, e: i32) -> Dec {
+        let mut r = Dec { digits: n.to_string().bytes().map(|b| b - b'0').collect(), places: 0 };
+        if e >= 0 { for _ in 0..e { r.mul_small(2); } } else { for _ in 0..-e { r.mul_small(5); } r.places = (-e) as usize; }
+        while r.digits.len() <= r.places { r.digits.insert(0, 0); }
+        r
+    }
+    /// the number a decimal spelling (digits with at most one point, no sign) denotes
+    pub fn parse(text: &str) -> Option<Dec> {
+        let (i, f) = match text.find('.') { Some(p) => (&text[..p], &text[p + 1..]), None => (text, "") };
+        if (i.is_empty() && f.is_empty()) || !i.bytes().chain(f.bytes()).all(|b| b.is_ascii_digit()) { return None; }
+        let mut digits: Vec<u8> = i.bytes().chain(f.bytes()).map(|b| b - b'0').collect();
+        if i.is_empty() { digits.insert(0, 0); }
+        Some(Dec { digits, places: f.len() })
+    }
+    /// rounded down to d places; true if nothing was cut off
+    fn floor_to(&self, d: usize) -> (Dec, bool) {
+        let mut r = self.clone();
+        if d >= r.places { r.digits.extend(std::iter::repeat(0).take(d - r.places)); r.places = d; return (r, true); }
+        let cut = r.places - d;
+        let exact = r.digits[r.digits.len() - cut..].iter().all(|x| *x == 0);
+        r.digits.truncate(r.digits.len() - cut); r.places = d;
+        (r, exact)
+    }
+    /// one unit in the last place more
+    fn succ(&self) -> Dec {
+        let mut r = self.clone();
+        for d in r.digits.iter_mut().rev() { if *d == 9 { *d = 0; } else { *d += 1; return r; } }
+        r.digits.insert(0, 1);
+        r
+    }
+    /// one unit in the last place less (None below zero)
+    fn pred(&self) -> Option<Dec> {
+        if self.digits.iter().all(|x| *x == 0) { return None; }
+        let mut r = self.clone();
+        for d in r.digits.iter_mut().rev() { if *d == 0 { *d = 9; } else { *d -= 1; break; } }
+        Some(r)
+    }
+    pub fn cmp(&self, o: &Dec) -> std::cmp::Ordering {
+        let p = self.places.max(o.places);
+        let norm = |x: &Dec| -> Vec<u8> { let mut v = x.digits.clone(); v.extend(std::iter::repeat(0).take(p - x.places)); let z = v.iter().take_while(|d| **d == 0).count(); v.split_off(z) };
+        let (a, b) = (norm(self), norm(o));
+        a.len().cmp(&b.len()).then_with(|| a.cmp(&b))
+    }
+    pub fn text(&self) -> String {
+        let n = self.digits.len() - self.places;
+        let z = self.digits[..n].iter().take_while(|d| **d == 0).count().min(n - 1);
+        let mut t: String = self.digits[z..n].iter().map(|d| (b'0' + d) as char).collect();
+        t.push('.');
+        t.extend(self.digits[n..].iter().map(|d| (b'0' + d) as char));
+        t
+    }
+}
+
+/// (lower edge, exact value, upper edge) of the f32 rounding interval of |v|: the edges are the midpoints between |v| and its
+/// two f32 neighbours, so every number strictly between them is nearer to |v| than to any other f32.  None for zero,
+/// subnormals, the smallest and the largest binade, infinities and NaN (no PDF number needs them here).
+pub fn rounding_interval(v: f32) -> Option<(Dec, Dec, Dec)> {
+    let bits = v.to_bits() & 0x7fff_ffff;
+    let be = (bits >> 23) as i32;
+    if be < 2 || be >= 254 { return None; }
+    let m = ((bits & 0x7f_ffff) | 0x80_0000) as u64;
+    let ex = be - 150; // |v| = m * 2^ex
+    let lo = if m == 0x80_0000 { Dec::dyadic(4 * m - 1, ex - 2) } else { Dec::dyadic(2 * m - 1, ex - 1) }; // the binade below is twice as fine
+    Some((lo, Dec::dyadic(m, ex), Dec::dyadic(2 * m + 1, ex - 1)))
+}
+
+/// true if the decimal spelling `text` (optional sign, digits, optional point) denotes a number whose nearest f32 is v and
+/// only v: the sign agrees and the magnitude lies strictly inside the rounding interval of |v|
+pub fn spelling_defines(text: &str, v: f32) -> bool {
+    let (neg, mag) = match text.as_bytes().first() { Some(b'-') => (true, &text[1..]), Some(b'+') => (false, &text[1..]), _ => (false, text) };
+    let (Some(d), Some((lo, _, hi))) = (Dec::parse(mag), rounding_interval(v)) else { return false };
+    neg == (v < 0.0) && d.cmp(&lo) == std::cmp::Ordering::Greater && d.cmp(&hi) == std::cmp::Ordering::Less
+}
+
+/// the spelling of v in class `nums` (>= 100) and whether it is a proper member of the class; when the class has no
+/// member inside the rounding interval of v (too few places to tell v from its neighbours) v is spelled as its exact
+/// binary value instead.  Every spelling returned has passed `spelling_defines`.  None if v has no rounding interval here.
+pub fn real_spelling(v: f32, nums: usize) -> Option<(String, bool)> {
+    let (lo, exact, hi) = rounding_interval(v)?;
+    let cand = match nums {
+        100..=999 => Some(exact.floor_to(exact.places.max(1) + (nums - 100)).0),
+        1000..=1999 if nums > 1000 => { let (t, whole) = hi.floor_to(nums - 1000); if whole { t.pred() } else { Some(t) } }
+        2000..=2999 if nums > 2000 => Some(lo.floor_to(nums - 2000).0.succ()),
+        _ => None,
+    };
+    let sign = if v < 0.0 { "-" } else { "" };
+    if let Some(c) = cand { let t = format!("{}{}", sign, c.text()); if spelling_defines(&t, v) { return Some((t, true)); } }
+    let t = format!("{}{}", sign, exact.floor_to(exact.places.max(1)).0.text());
+    if spelling_defines(&t, v) { Some((t, false)) } else { None }
+}
+
+fn nums_class(nums: usize) -> String {
+    match nums {
+        0 => "shortest spelling".into(), 1 => "+7 / -.5 / 1. spellings".into(),
+        100..=999 => format!("exact binary value with {} more zeros", nums - 100),
+        1000..=1999 => format!("largest decimal with {} places below the upper edge of the rounding interval", nums - 1000),
+        2000..=2999 => format!("smallest decimal with {} places above the lower edge of the rounding interval", nums - 2000),
+        _ => format!("nums {}", nums),
+    }
 }
 
 fn wobj(o: &Object, s: &Style, out: &mut Vec<u8>, k: &mut usize) {
@@ -119,7 +250,22 @@ pub fn abstract_doc(variant: usize) -> BTreeMap<u32, (u16, Object)> {
     m
 }
 
-pub fn render(doc: &BTreeMap<u32, (u16, Object)>, s: &Style) -> Vec<u8> {
+/// the Length objects an indirect-Length rendering adds: stream object number -> (number of its Length object, the integer);
+/// they are numbered after the largest object number of the document, in ascending stream order
+pub fn len_objects(doc: &BTreeMap<u32, (u16, Object)>, len_home: usize) -> BTreeMap<u32, (u32, i64)> {
+    let mut m = BTreeMap::new();
+    if len_home == 0 { return m; }
+    let mut next = doc.keys().max().copied().unwrap_or(0) + 1;
+    for (id, (_, o)) in doc { if let Object::Stream(st) = o { m.insert(*id, (next, st.content.len() as i64)); next += 1; } }
+    m
+}
+
+pub fn render(doc: &BTreeMap<u32, (u16, Object)>, s: &Style) -> Vec<u8> { render_ext(doc, s, if s.indirect_len { 1 } else { 0 }) }
+
+/// len_home: 0 direct Length; otherwise every stream of the document gives its Length as a reference to an integer object that
+/// is 1 written in the file body after all other objects, 2 written in the file body before all other objects, 3 a compressed
+/// object in the object stream (needs s.objstm and an xref stream that can express type-2 entries; otherwise as 1)
+pub fn render_ext(doc: &BTreeMap<u32, (u16, Object)>, s: &Style, len_home: usize) -> Vec<u8> {
     let e = eol(s);
     let mut f = Vec::new();
     if s.junk { f.extend_from_slice(b"junk before the header\n\x00\x01"); }
@@ -133,8 +279,16 @@ pub fn render(doc: &BTreeMap<u32, (u16, Object)>, s: &Style) -> Vec<u8> {
     if s.order == 1 { ids.reverse(); }
     let mut next_id = doc.keys().max().copied().unwrap_or(0) + 1;
     let in_objstm = |id: u32, o: &Object, g: u16| s.objstm && use_stream_xref && id != 1 && g == 0 && !matches!(o, Object::Stream(_));
-    let len_obj = if s.indirect_len { let id = next_id; next_id += 1; Some(id) } else { None };
-    let mut deferred_len: Option<(u32, usize)> = None;
+    let lens = len_objects(doc, len_home);
+    next_id += lens.len() as u32;
+    let compress_len = len_home == 3 && s.objstm && use_stream_xref && s.xref != 6;
+    let put_lens = |f: &mut Vec<u8>, entries: &mut BTreeMap<u32, (u8, u64, u64)>| {
+        for (l, n) in lens.values() {
+            entries.insert(*l, (1, (f.len() - base) as u64, 0));
+            f.extend_from_slice(format!("{} 0 obj{}{}{}endobj{}", l, String::from_utf8_lossy(e), n, String::from_utf8_lossy(e), String::from_utf8_lossy(e)).as_bytes());
+        }
+    };
+    if len_home == 2 { put_lens(&mut f, &mut entries); }
     for id in &ids {
         let (g, o) = &doc[id];
         if in_objstm(*id, o, *g) { continue; }
@@ -143,7 +297,7 @@ pub fn render(doc: &BTreeMap<u32, (u16, Object)>, s: &Style) -> Vec<u8> {
         match o {
             Object::Stream(st) => {
                 let mut d = st.dict.clone();
-                if let Some(l) = len_obj { d.set("Length", Object::Reference((l, 0))); deferred_len = Some((l, st.content.len())); } else { d.set("Length", st.content.len() as i64); }
+                if let Some((l, _)) = lens.get(id) { d.set("Length", Object::Reference((*l, 0))); } else { d.set("Length", st.content.len() as i64); }
                 wdict(&d, s, &mut f, &mut k);
                 f.extend_from_slice(e); f.extend_from_slice(b"stream"); f.extend_from_slice(if s.eol == 2 { b"\r\n" } else { e });
                 f.extend_from_slice(&st.content);
@@ -153,18 +307,16 @@ pub fn render(doc: &BTreeMap<u32, (u16, Object)>, s: &Style) -> Vec<u8> {
         }
         f.extend_from_slice(e); f.extend_from_slice(b"endobj"); f.extend_from_slice(e);
     }
-    if let Some((l, n)) = deferred_len {
-        entries.insert(l, (1, (f.len() - base) as u64, 0));
-        f.extend_from_slice(format!("{} 0 obj{}{}{}endobj{}", l, String::from_utf8_lossy(e), n, String::from_utf8_lossy(e), String::from_utf8_lossy(e)).as_bytes());
-    } else if let Some(l) = len_obj { entries.insert(l, (1, (f.len() - base) as u64, 0)); f.extend_from_slice(format!("{} 0 obj 0 endobj\n", l).as_bytes()); }
+    if len_home != 0 && len_home != 2 && !compress_len { put_lens(&mut f, &mut entries); }
     // object stream
-    let packed: Vec<u32> = doc.iter().filter(|(id, (g, o))| in_objstm(**id, o, *g)).map(|(id, _)| *id).collect();
+    let mut packed: Vec<(u32, Object)> = doc.iter().filter(|(id, (g, o))| in_objstm(**id, o, *g)).map(|(id, (_, o))| (*id, o.clone())).collect();
+    if compress_len { for (l, n) in lens.values() { packed.push((*l, Object::Integer(*n))); } }
     if !packed.is_empty() {
         let cid = next_id; next_id += 1;
         let mut index = Vec::new(); let mut body = Vec::new();
-        for (i, id) in packed.iter().enumerate() {
+        for (i, (id, o)) in packed.iter().enumerate() {
             index.extend_from_slice(format!("{} {}", id, body.len()).as_bytes()); index.extend_from_slice(if i % 2 == 0 { b" " } else { b"\n" });
-            wobj(&doc[id].1, s, &mut body, &mut k); body.extend_from_slice(&sp(s, k));
+            wobj(o, s, &mut body, &mut k); body.extend_from_slice(&sp(s, k));
             entries.insert(*id, (2, cid as u64, i as u64));
         }
         let mut content = index.clone(); content.extend_from_slice(&body);
@@ -226,58 +378,160 @@ pub fn render(doc: &BTreeMap<u32, (u16, Object)>, s: &Style) -> Vec<u8> {
     f
 }
 
-pub fn check(variant: usize, s: &Style) -> Result<(), (String, String)> {
+pub fn check(variant: usize, s: &Style, len_home: usize) -> Result<(), (String, String)> {
     // a W [0 n 0] stream can only express type-1 entries; W [1 3 0] defaults generation 0: restrict the abstract document accordingly
     let mut doc = abstract_doc(variant);
     if s.xref == 3 || s.xref == 6 { for (_, (g, _)) in doc.iter_mut() { *g = 0; } }
     let mut st = s.clone();
     if s.xref == 6 { st.objstm = false; }
-    if s.junk { return check_junk(&doc, &st); }
-    check_bytes(&doc, &render(&doc, &st))
+    check_bytes(&doc, &st, len_home, &render_ext(&doc, &st, len_home))
 }
-fn check_junk(doc: &BTreeMap<u32, (u16, Object)>, s: &Style) -> Result<(), (String, String)> { check_bytes(doc, &render(doc, s)) }
 
-fn check_bytes(doc: &BTreeMap<u32, (u16, Object)>, file: &[u8]) -> Result<(), (String, String)> {
+/// the first real of `want` that `got` does not hold bit for bit at the same place: (the real the file defines, what was loaded there)
+fn real_mismatch(want: &Object, got: &Object) -> Option<(f32, String)> {
+    match (want, got) {
+        (Object::Real(a), Object::Real(b)) => if a.to_bits() == b.to_bits() { None } else { Some((*a, format!("Real({:?}) = bits {:#010x}", b, b.to_bits()))) },
+        (Object::Real(a), other) => Some((*a, format!("{:?}", other))),
+        (Object::Array(x), Object::Array(y)) => x.iter().zip(y.iter()).find_map(|(p, q)| real_mismatch(p, q)),
+        (Object::Dictionary(x), Object::Dictionary(y)) => x.iter().find_map(|(k, p)| y.get(k).ok().and_then(|q| real_mismatch(p, q))),
+        _ => None,
+    }
+}
+
+fn len_home_name(len_home: usize, compressed: bool) -> &'static str {
+    match len_home { 0 => "direct", 2 => "an indirect object in the file body before the stream", 3 if compressed => "an indirect object compressed in the object stream", _ => "an indirect object in the file body after the stream" }
+}
+
+fn check_bytes(doc: &BTreeMap<u32, (u16, Object)>, s: &Style, len_home: usize, file: &[u8]) -> Result<(), (String, String)> {
     let loaded = match guarded(|| Document::load_mem(file)) { Ok(Ok(d)) => d, Ok(Err(e)) => return Err(("loads".into(), format!("load failed: {}", e))), Err(p) => return Err(("no-panic".into(), p)) };
     if loaded.version != "1.6" { return Err(("version".into(), format!("version {:?}", loaded.version))); }
+    let lens = len_objects(doc, len_home);
+    let compressed = len_home == 3 && s.objstm && s.xref >= 2 && s.xref != 6;
     for (id, (g, want)) in doc {
         match loaded.objects.get(&(*id, *g)) {
             None => return Err(("object-present".into(), format!("object {} {} defined by the file is missing after load", id, g))),
             Some(got) => {
+                if s.nums >= 100 {
+                    // the reals family: every real must come back bit for bit (its spelling lies strictly inside the rounding interval of that f32)
+                    if let Some((v, was)) = real_mismatch(want, got) {
+                        let text = real_spelling(v, s.nums).map(|x| x.0).unwrap_or_else(|| format!("{}", v));
+                        return Err(("real-nearest".into(), format!("object {} {}: the real spelled {} ({}) is nearer to the f32 {:?} = bits {:#010x} than to any other (it lies strictly between the midpoints to both neighbours), but loaded as {}", id, g, text, nums_class(s.nums), v, v.to_bits(), was)));
+                    }
+                }
                 let same = match (want, got) {
-                    (Object::Stream(a), Object::Stream(b)) => a.content == b.content && dict_eq(&a.dict, &b.dict, &[b"Length"]),
+                    (Object::Stream(a), Object::Stream(b)) => {
+                        if a.content != b.content {
+                            return Err(("stream-content".into(), format!("stream {} {} (Length {}): the file defines {} bytes of data, loaded {} bytes{}; loaded /Length is {:?}", id, g, len_home_name(len_home, compressed), a.content.len(), b.content.len(), if b.content.is_empty() { "" } else if a.content.starts_with(&b.content) { " (a prefix)" } else { " (different)" }, b.dict.get(b"Length").ok())));
+                        }
+                        // the loaded Length is the file's reference or the integer it stands for
+                        let want_len = Object::Integer(a.content.len() as i64);
+                        let len_ok = match (b.dict.get(b"Length"), lens.get(id)) { (Ok(l), Some((r, _))) => *l == Object::Reference((*r, 0)) || obj_eq(&want_len, l), (Ok(l), None) => obj_eq(&want_len, l), _ => false };
+                        if !len_ok { return Err(("stream-length".into(), format!("stream {} {} (Length {}): holds {} bytes but its loaded /Length is {:?}", id, g, len_home_name(len_home, compressed), a.content.len(), b.dict.get(b"Length").ok()))); }
+                        dict_eq(&a.dict, &b.dict, &[b"Length"])
+                    }
                     _ => obj_eq(want, got),
                 };
                 if !same { return Err(("object-equal".into(), format!("object {} {}: file defines {:?}, loaded {:?}", id, g, want, got))); }
             }
         }
     }
+    // the Length objects are objects of the file like any other
+    for (sid, (l, n)) in &lens {
+        match loaded.objects.get(&(*l, 0)) {
+            Some(Object::Integer(x)) if x == n => {}
+            other => return Err(("length-object".into(), format!("object {} 0 (the Length of stream {}, {}) is the integer {}, loaded {:?}", l, sid, len_home_name(len_home, compressed), n, other))),
+        }
+    }
     if loaded.trailer.get(b"Root").and_then(|o| o.as_reference()).ok() != Some((1, 0)) { return Err(("trailer".into(), format!("trailer {:?}", loaded.trailer))); }
     Ok(())
 }
 
-fn style_json(v: usize, s: &Style) -> Value { json!({"variant": v, "eol": s.eol, "ws": s.ws, "strs": s.strs, "names": s.names, "nums": s.nums, "order": s.order, "xref": s.xref, "objstm": s.objstm, "indirect_len": s.indirect_len, "junk": s.junk}) }
-fn style_from(v: &Value) -> (usize, Style) {
+// ---- the reals family ----
+
+/// 24-bit significands at the edges and inside a binade: the power of two (its lower neighbour is twice as near), its two
+/// successors, the two largest (the upper neighbour is the next power of two), alternating bit patterns, sqrt 2, pi / 2, 5/4 + 1 ulp
+const SIGNIFICANDS: [u32; 10] = [0x80_0000, 0x80_0001, 0x80_0002, 0xff_ffff, 0xff_fffe, 0xaa_aaab, 0xd5_5554, 0xb5_04f3, 0xc9_0fdb, 0xa0_0001];
+
+fn real_of(exp: i32, significand: u32, negative: bool) -> f32 { f32::from_bits(((negative as u32) << 31) | (((exp + 127) as u32) << 23) | (significand & 0x7f_ffff)) }
+
+/// the reals of binade 2^exp the family covers: every significand with both signs
+pub fn binade_reals(exp: i32) -> Vec<f32> { SIGNIFICANDS.iter().flat_map(|m| [real_of(exp, *m, false), real_of(exp, *m, true)]).collect() }
+
+/// abstract document 0 plus object 12, an array of the reals of one binade, and object 13, a dictionary holding three of them
+pub fn reals_doc(exp: i32) -> BTreeMap<u32, (u16, Object)> {
+    let mut m = abstract_doc(0);
+    let r = binade_reals(exp);
+    m.insert(12, (0, Object::Array(r.iter().map(|v| Object::Real(*v)).collect())));
+    m.insert(13, (0, Object::Dictionary(dict(vec![(b"V", Object::Real(r[2])), (b"W", Object::Array(vec![Object::Real(r[7]), Object::Integer(3), Object::Real(r[14])])), (b"X", Object::Real(r[19]))]))));
+    m
+}
+
+/// the places a number can be read from: file body behind a table, body with comments after every token, object stream (twice)
+fn reals_context(c: usize, nums: usize) -> Style {
+    match c {
+        0 => Style { eol: 0, ws: 0, strs: 0, names: 0, nums, order: 0, xref: 0, objstm: false, indirect_len: false, junk: false },
+        1 => Style { eol: 1, ws: 2, strs: 1, names: 1, nums, order: 1, xref: 1, objstm: false, indirect_len: false, junk: false },
+        2 => Style { eol: 0, ws: 1, strs: 2, names: 0, nums, order: 0, xref: 2, objstm: true, indirect_len: false, junk: false },
+        _ => Style { eol: 2, ws: 0, strs: 0, names: 1, nums, order: 1, xref: 5, objstm: true, indirect_len: false, junk: true },
+    }
+}
+
+/// the spelling classes worth running for a binade: exact value (with and without extra zeros) and both edge classes at every
+/// number of places from 1 to 3 beyond the last digit of the exact edges
+fn reals_classes(exp: i32) -> Vec<usize> {
+    let dmax = (25 - exp).max(0) as usize + 3;
+    let mut v = vec![100, 103];
+    for d in 1..=dmax { v.push(1000 + d); v.push(2000 + d); }
+    v
+}
+
+pub fn check_reals(exp: i32, nums: usize, context: usize) -> Result<(), (String, String)> {
+    let doc = reals_doc(exp);
+    let s = reals_context(context, nums);
+    check_bytes(&doc, &s, 0, &render_ext(&doc, &s, 0))
+}
+
+fn style_json(v: usize, s: &Style, len_home: usize) -> Value { json!({"variant": v, "eol": s.eol, "ws": s.ws, "strs": s.strs, "names": s.names, "nums": s.nums, "order": s.order, "xref": s.xref, "objstm": s.objstm, "indirect_len": len_home != 0, "len_home": len_home, "junk": s.junk}) }
+fn style_from(v: &Value) -> (usize, Style, usize) {
     let g = |k: &str| v[k].as_u64().unwrap_or(0) as usize;
-    (g("variant"), Style { eol: g("eol"), ws: g("ws"), strs: g("strs"), names: g("names"), nums: g("nums"), order: g("order"), xref: g("xref"), objstm: v["objstm"].as_bool().unwrap_or(false), indirect_len: v["indirect_len"].as_bool().unwrap_or(false), junk: v["junk"].as_bool().unwrap_or(false) })
+    let il = v["indirect_len"].as_bool().unwrap_or(false);
+    let len_home = v["len_home"].as_u64().map(|x| x as usize).unwrap_or(if il { 1 } else { 0 });
+    (g("variant"), Style { eol: g("eol"), ws: g("ws"), strs: g("strs"), names: g("names"), nums: g("nums"), order: g("order"), xref: g("xref"), objstm: v["objstm"].as_bool().unwrap_or(false), indirect_len: len_home != 0, junk: v["junk"].as_bool().unwrap_or(false) }, len_home)
 }
 
 pub fn run(thorough: bool) -> Report {
-    let mut rep = Report::new("2 abstract documents x every combination of: EOL {LF,CRLF,CR} x white-space {single, mixed incl. NUL/FF/tab, comments} x strings {literal escapes, octal + line continuation, hex with white-space / odd digits} x names {plain, #XX} x numbers {plain, +007 / -.5 / 1.} x body order {asc, desc} x xref {1 table section, many sections, stream W[1 2 1], W[1 3 0]+Index, W[2 4 2] Flate, W[1 2 1] Flate+PNG Up, W[0 2 0]} x object stream {no, yes} x indirect Length {no, yes} x leading junk {no, yes} (quick: every 7th combination)", thorough);
+    let mut rep = Report::new("(a) 2 abstract documents x every combination of: EOL {LF,CRLF,CR} x white-space {single, mixed incl. NUL/FF/tab, comments} x strings {literal escapes, octal + line continuation, hex with white-space / odd digits} x names {plain, #XX} x numbers {plain, +007 / -.5 / 1.} x body order {asc, desc} x xref {1 table section, many sections, stream W[1 2 1], W[1 3 0]+Index, W[2 4 2] Flate, W[1 2 1] Flate+PNG Up, W[0 2 0]} x object stream {no, yes} x stream Length {direct, indirect: integer object in the body after the stream, in the body before the stream, compressed in the object stream (only with an object stream)} x leading junk {no, yes} (quick: every 7th combination); the Length objects are checked as objects of the file. (b) digit count of reals: for each binade 2^e, e in -40..=40 (quick: -20,-3,-1,0,1,6,23,31), a document holding the 20 reals +-m*2^(e-23), m in {2^23, 2^23+1, 2^23+2, 2^24-1, 2^24-2, 0xAAAAAB, 0xD55554, 0xB504F3, 0xC90FDB, 0xA00001}, in an array and a dictionary, with every real of the file spelled in one class x 4 contexts {table/LF, many sections/CRLF/comments/descending, xref stream + object stream/mixed white-space, Flate+PNG xref stream + object stream/CR/junk}; classes: exact binary value (+0 / +3 zeros), and for every d from 1 to 3 past the last digit of the exact interval edges: the largest d-place decimal below the upper edge and the smallest d-place decimal above the lower edge of the real's f32 rounding interval (a real whose interval has no such member is spelled exactly; a class with no member for any real of the binade is not run). Oracle: exact decimal arithmetic, the spelling lies strictly between the midpoints to both f32 neighbours, so the loaded f32 must equal the abstract one bit for bit", thorough);
     let mut n = 0usize;
-    for variant in 0..2 { for eol in 0..3 { for ws in 0..3 { for strs in 0..3 { for names in 0..2 { for nums in 0..2 { for order in 0..2 { for xref in 0..7 { for objstm in [false, true] { for il in [false, true] { for junk in [false, true] {
+    for variant in 0..2 { for eol in 0..3 { for ws in 0..3 { for strs in 0..3 { for names in 0..2 { for nums in 0..2 { for order in 0..2 { for xref in 0..7 { for objstm in [false, true] { for len_home in 0..4 { for junk in [false, true] {
         if objstm && xref < 2 { continue; }
+        if len_home == 3 && !(objstm && xref != 6) { continue; }   // W [0 2 0] cannot point into an object stream
         n += 1;
         if !thorough && n % 7 != 0 { continue; }
-        let s = Style { eol, ws, strs, names, nums, order, xref, objstm, indirect_len: il, junk };
+        let s = Style { eol, ws, strs, names, nums, order, xref, objstm, indirect_len: len_home != 0, junk };
         rep.case(true);
-        if let Err((o, d)) = check(variant, &s) { rep.fail(&o, d.clone(), style_json(variant, &s), d); }
+        if let Err((o, d)) = check(variant, &s, len_home) { rep.fail(&o, d.clone(), style_json(variant, &s, len_home), d); }
     } } } } } } } } } } }
-    rep.sample("variant 1, CRLF, comments between tokens, octal strings, #XX names, xref stream W[1 2 1] Flate + PNG Up predictor, object stream, indirect Length".into());
+    let exps: Vec<i32> = if thorough { (-40..=40).collect() } else { vec![-20, -3, -1, 0, 1, 6, 23, 31] };
+    for exp in exps {
+        let values = binade_reals(exp);
+        for nums in reals_classes(exp) {
+            let members = values.iter().filter(|v| real_spelling(**v, nums).map(|x| x.1).unwrap_or(false)).count();
+            if members == 0 { continue; }
+            for context in 0..4 {
+                rep.case(true);
+                if let Err((o, d)) = check_reals(exp, nums, context) { rep.fail(&o, d.clone(), json!({"family": "reals", "exp": exp, "nums": nums, "context": context}), d); }
+            }
+        }
+    }
+    rep.sample("variant 1, CRLF, comments between tokens, octal strings, #XX names, xref stream W[1 2 1] Flate + PNG Up predictor, object stream, Length 13 0 R compressed in the object stream".into());
+    rep.sample(format!("reals, binade 2^0, class 2025 in an object stream: {:?} spelled {}", real_of(0, 0x80_0001, false), real_spelling(real_of(0, 0x80_0001, false), 2025).map(|x| x.0).unwrap_or_default()));
     rep
 }
 
 pub fn replay(v: &Value) -> Result<(), String> {
-    let (variant, s) = style_from(v);
-    check(variant, &s).map_err(|e| format!("{}: {}", e.0, e.1))
+    if v["family"].as_str() == Some("reals") {
+        return check_reals(v["exp"].as_i64().unwrap_or(0) as i32, v["nums"].as_u64().unwrap_or(100) as usize, v["context"].as_u64().unwrap_or(0) as usize).map_err(|e| format!("{}: {}", e.0, e.1));
+    }
+    let (variant, s, len_home) = style_from(v);
+    check(variant, &s, len_home).map_err(|e| format!("{}: {}", e.0, e.1))
 }
